@@ -5,6 +5,7 @@ CONSTANTS NAcc = 0
           MaxDiffs = {}
           HistLimits = {}
           Policies = {}
+          Asyncs = {}
           MaxId = 0
 INVARIANTS TypeOK ViewIsRoot Aligned HistChain PersistedIsCanon RecoverableSound
 PROPERTIES RecoverRestores RecoverFailKeeps
